@@ -47,6 +47,18 @@ _section_code = None
 _sbx = None
 
 
+_WARM_RESIDUE: list = []
+
+
+def _interp_settings():
+    import csv
+    import decimal
+    import socket
+    return {"recursionlimit": sys.getrecursionlimit(), "decimal_prec": decimal.getcontext().prec, "csv_field_size_limit": csv.field_size_limit(),
+            "socket_default_timeout": socket.getdefaulttimeout(), "cwd": os.getcwd(), "sys_path": tuple(sys.path),
+            "environ": hashlib.sha1(repr(sorted(os.environ.items())).encode()).hexdigest()}
+
+
 def _extract_digest(name: str, data: bytes):
     try:
         rs = list(corpus.extractor_for(name)(io.BytesIO(data), None))
@@ -136,10 +148,14 @@ def warm():
         if "_harness" in rec:
             raise RuntimeError(f"baseline for {tag} failed: {rec}")
         _base[tag] = rec["d"]
+    global _WARM_RESIDUE
+    settings0 = _interp_settings()
     corpus.warm_all(extract=True)
     for n in _pool:  # fill every lazy cache the same way in the zygote
         if not (n.startswith("var/aes") or "password" in n):  # encrypted PDFs install a one-way AES patch: never in the zygote
             _extract_digest(n, _docs[n])
+    settings1 = _interp_settings()
+    _WARM_RESIDUE = [(k, settings0[k], settings1[k]) for k in settings0 if settings0[k] != settings1[k]]  # reported by every run
     # instrumentation targets
     mods = [m for name, m in sorted(sys.modules.items()) if m is not None and name.startswith("sharepoint2text") and ".tests" not in name]
     for extra in ("pypdf._page", "pypdf._cmap", "pypdf._font", "pypdf._text_extraction._layout_mode"):
@@ -498,6 +514,9 @@ def run_case(case: dict) -> dict:
     for k in env_before:
         if env_before[k] != env_after[k]:
             viol.append({"class": "global_state_residue", "sig": f"env:{k}", "detail": f"{k}: {str(env_before[k])[:200]} -> {str(env_after[k])[:200]}"})
+    for k, a, b in _WARM_RESIDUE:
+        viol.append({"class": "global_state_residue", "sig": f"interpreter_setting:{k}|after_sequential_warmup",
+                     "detail": f"extracting every pool document once, sequentially (the zygote warm-up, incl. failing inputs), left {k} changed: {a!r} -> {b!r}"})
     if sched.overrun:
         probes["step_cap_reached_preemption_off"] = 1  # all tasks still finished (run() returned); only pre-emption stopped
 
